@@ -187,7 +187,7 @@ def directory(seed, conf=False):
     import shlex
     rng = random.Random(seed)
     pool = ["a", "A", "b", "Ab", "aB", "", "x-y", "my app"]
-    init = rng.sample(["a", "b", "x-y"], rng.choice([1, 2]))
+    init = rng.sample(["a", "b", "x-y", "my app", "Ab"], rng.choice([1, 2]))     # (names present from the start: most operations reach them)
     ws = [{"name": n, "np": rng.choice([0, 1, 2]), "G": rng.choice([0.0, 0.1, 0.2]), "W": rng.choice([0.0, 0.1]),
            "priority": rng.choice([0, 1])} for n in init]
     sc = {"seed": seed, "watchers": ws, "check_delay": rng.choice([0.3, 0.5]), "warmup_delay": 0.0,
